@@ -51,6 +51,7 @@ def parse_string(
 
     error_handler = ErrorHandler(file_path, used_in_extension)
     error_listener = SyntaxErrorListener(token_stream, error_handler)
+    lexer.addErrorListener(error_listener)
     parser.addErrorListener(error_listener)
 
     tree = parser.program()
